@@ -36,7 +36,8 @@ ASSUMPTIONS = ['gas phase ideal and Poynting factor 1 (the default Phi/PCF of th
                'P,S value bracketed within +-5 mK at frozen flows counts as reproduced; Benzene (grid of 2 J/mol/K) is not '
                'used in S specifications; scaling of S-specified flashes is compared with rtol 1e-3 instead of 1e-6',
                'documented rejections (InfeasibleRegion, NoEquilibrium, NotImplementedError "cannot solve for pressure '
-               'yet", solver RuntimeError) are counted as rejected',
+               'yet", solver RuntimeError) and arithmetic failures inside a solver (FloatingPointError, ZeroDivisionError, '
+               'OverflowError) are counted as rejected: the property speaks about calculations that return',
                'pm=1 marks mixtures containing a pair whose larger infinite-dilution activity coefficient (300/400 K) '
                'exceeds e**2; env=bad marks inputs whose bubble/dew point the package solvers get wrong (both are region '
                'tags of known findings, not exclusions)']
@@ -72,7 +73,10 @@ TOL_IDEAL = 1e-5
 TOL_SCALE = 1e-6
 TOL_SCALE_S = 1e-3      # P,S / T,S: S(T) carries ~1e-8 relative evaluation noise (float grid of the HEOS_FIT integral, C07-F3)
                         # which flips stopping decisions of the T / P iteration: observed up to 1.2e-5
-REJECT = (InfeasibleRegion, NoEquilibrium, UndefinedPhase, NotImplementedError, RuntimeError)
+# arithmetic failures inside a solver (seen: divide by zero in dew_point.gamma_iter on mixtures with a miscibility gap,
+# C08-F3) mean the call did not return: the property is stated for calculations that return
+REJECT = (InfeasibleRegion, NoEquilibrium, UndefinedPhase, NotImplementedError, RuntimeError,
+          FloatingPointError, ZeroDivisionError, OverflowError)
 
 
 def package(pid, ideal=False):
@@ -446,7 +450,9 @@ def prop_spec(ch, ctx):
     kw, mol, stratum = draw_spec_values(ch, ctx, pid, th, names, z, F, inerts, pair, approx)
     s = build(th, names, mol, inerts, start)
     itag = ('g' if any(th.chemicals[k].locked_state == 'g' for k in inerts) else '') + \
-           ('h' if any(th.chemicals[k].locked_state != 'g' for k in inerts) else '')
+           ('h' if any(th.chemicals[k].locked_state != 'g' for k in inerts) else '') + \
+           ('c' if any(th.chemicals[k].locked_state != 'g' and (th.chemicals[k].N_solutes or 0) for k in inerts) else '')
+    # 'c': a counted non-volatile solute (N_solutes > 0) takes part in the phase-fraction balance
     region = f'{nvol_tag(n)},inert={itag or "none"},ideal={int(ideal)},pm={pm_tag(pid, names, ideal)}'
     site = pair
     ctx.cell('spec:' + pair); ctx.cell('spec:' + nvol_tag(n)); ctx.cell('spec:inert=' + (itag or 'none'))
